@@ -135,3 +135,40 @@ package bytecode
 //@ func (c *Compiler) compileIndexExpression(expr *parser.IndexExpression) (err error)
 //@   noverify not under contract
 //@   modifies allbut compileFrame
+
+// ---- C17: the symbol table hands out storage slots that are not shared while alive, and reports how many
+// local slots a block and the blocks nested in it need ----
+
+//@ typeinv SymbolTable: self.store != nil && self.index >= 0 && self.nestedMaxIndex >= 0 && forall(k, string, has(self.store, k) ==> 0 <= self.store[k].Index && self.store[k].Index < self.index)
+
+//@ func (s *SymbolTable) Define(name string) (sym Symbol)
+//@   props C17
+//@   ensures[C17 redefinition-returns-existing] old(has(s.store, name)) ==> sym.Index == old(s.store[name].Index) && s.index == old(s.index)
+//@   ensures[C17 fresh-slot] !old(has(s.store, name)) ==> sym.Index == old(s.index) && s.index == old(s.index) + 1 && has(s.store, name) && s.store[name].Index == sym.Index
+//@   ensures[C17 slot-not-shared] !old(has(s.store, name)) ==> forall(k, string, old(has(s.store, k)) ==> s.store[k].Index == old(s.store[k].Index) && s.store[k].Index != sym.Index)
+//@   ensures[C17 scope-kind] sym.Scope == ite(s.outer == nil, GlobalScope, LocalScope) || old(has(s.store, name))
+//@   modifies s.index, s.store[*]
+
+//@ func (s *SymbolTable) Push() (t *SymbolTable)
+//@   props C17
+//@   ensures[C17 inner-starts-after-outer] fresh(t) && t.outer == s && t.index == ite(s.outer == nil, 0, s.index) && t.nestedMaxIndex == 0
+//@   modifies nothing
+
+//@ func (s *SymbolTable) Pop() (t *SymbolTable)
+//@   props C17
+//@   ensures[C17 global-stays] s.outer == nil ==> t == s
+//@   ensures[C17 slots-of-nested-blocks-counted] s.outer != nil ==> t == s.outer && t.nestedMaxIndex >= old(t.nestedMaxIndex) && t.nestedMaxIndex >= s.index && t.nestedMaxIndex >= s.nestedMaxIndex
+//@   modifies s.outer.nestedMaxIndex
+
+// ---- C17: the operand stack never overflows the host slice ----
+
+// The stack slice has StackSize cells and the stack pointer stays inside it.
+//@ typeinv VM: len(self.stack) == 2048 && 0 <= self.sp && self.sp <= 2048
+//@ global ErrStackOverflow != nil
+
+//@ func (vm *VM) push(o value) (err error)
+//@   props C17
+//@   ensures[C17 overflow-is-a-user-error] old(vm.sp) >= 2048 ==> err == ErrStackOverflow && vm.sp == old(vm.sp)
+//@   ensures[C17 pushed] old(vm.sp) < 2048 ==> err == nil && vm.sp == old(vm.sp) + 1 && vm.stack[old(vm.sp)] == o
+//@   ensures[C17 below-kept] forall(i, int, 0 <= i && i < old(vm.sp) ==> vm.stack[i] == old(vm.stack[i]))
+//@   modifies vm.sp, vm.stack[*]
